@@ -3,7 +3,7 @@ from functools import partial
 
 from . import engine
 from .rules import (tables, errflow, stop, scope, fold, hashorder, eqfield, cast, lock, witness, orpat, guard, parsepure,
-                    kernel, evalorder, layer, export, panic, misc, pairflowrule, variant, folddrop, queryguard, iterops)
+                    kernel, evalorder, layer, export, panic, misc, pairflowrule, variant, folddrop, queryguard, iterops, round3, forshape)
 
 TRUST = ["rustc: type checking, MIR construction, Instance resolution, auto traits",
          "pest / pest_meta: PEG semantics, silent/atomic rule semantics, PrattParser precedence climbing",
@@ -38,8 +38,8 @@ ITER_SCOPE = scope_prefix("instruction::reduce::", "<instruction::reduce::", "in
 STDLIB_SCOPE = scope_prefix("stdlib::", "<stdlib::", "variable::try_from::", "<variable::Variable as std::convert::From<std::io")
 
 prop("C01",
-     [guard.run, guard.run_mustcall, misc.run_fnexit, misc.run_looptype, misc.run_slicetype, misc.run_celltype, queryguard.run, fold.run, scope.run],
-     "Decides the structural half of type soundness: all 43 static checks the soundness argument leans on exist, are tested "
+     [guard.run, guard.run_mustcall, misc.run_fnexit, misc.run_looptype, misc.run_slicetype, misc.run_celltype, queryguard.run, fold.run, scope.run, round3.run_meetuse, round3.run_assigntyping, round3.run_cellmember],
+     "Also: Type::conjoin (a mere lower bound) is used only for parameter types (R-MEETUSE); `X=` is typed with the typing functions of X (R-ASSIGNTYPING). Decides the structural half of type soundness: all 43 static checks the soundness argument leans on exist, are tested "
      "before every success value of their creation function and cannot be bypassed (R-GUARD, R-MUSTCALL); falling off a function "
      "body yields () and MissingReturn stands in front of that for non-() functions (R-FNEXIT); the Type queries that compute "
      "result types treat all union members alike (R-FOLD); no operator runs a callee in the caller's scope (R-SCOPE). It does NOT "
@@ -48,8 +48,8 @@ prop("C01",
      "guard conditions are taken as written (a weakened but present condition is not detected)")
 
 prop("C02",
-     [partial(panic.run, name="R-PANIC"), errflow.run, stop.run, scope.run, orpat.run, lock.run, guard.run_execerror, variant.run, guard.run_mustcall, misc.run_looptype, layer.run],
-     "Decides: the complete inventory of panic-capable sites (383 today) is matched per function and signature to a reviewed "
+     [partial(panic.run, name="R-PANIC"), errflow.run, stop.run, scope.run, orpat.run, lock.run, guard.run_execerror, variant.run, guard.run_mustcall, misc.run_looptype, layer.run, round3.run_assigntyping],
+     "Also R-ASSIGNTYPING (a compound assignment admitting operands its operator does not type ends in a failed downcast). Decides: the complete inventory of panic-capable sites (383 today) is matched per function and signature to a reviewed "
      "justification naming the check that discharges it (R-PANIC); no error or control signal is dropped (R-ERRFLOW); ExecStop is "
      "raised and caught only where the control-flow table says, with the documented routing (R-STOP); no callee declares into the "
      "caller's scope (R-SCOPE); no universal check is written as an overlapping or-pattern (R-ORPAT); nothing can panic while a "
@@ -74,8 +74,8 @@ prop("C03",
 
 prop("C04",
      [parsepure.run, kernel.run, guard.run_execerror, misc.run_retain, folddrop.run,
-      partial(panic.run, scope=FOLD_SCOPE, name="R-PANIC"), cast.run],
-     "Decides: folding cannot have effects, create cells or run user code (R-PARSEPURE: no path from parse / create / recreate to "
+      partial(panic.run, scope=FOLD_SCOPE, name="R-PANIC"), cast.run, round3.run_childkeep, round3.run_iterfold],
+     "Also: no collection of children is filtered while creating / folding (R-CHILDKEEP); folding never creates or pulls an iterator (R-ITERFOLD). Decides: folding cannot have effects, create cells or run user code (R-PARSEPURE: no path from parse / create / recreate to "
      "Exec::exec; cells built only by Mut::exec / of_type); the fold route and the run route of every operator end in the same "
      "kernel function (R-KERNEL, 62 rows); the early-error arms of the fold path raise only the variant the kernel raises "
      "(R-GUARD-X); only constant statements are dropped (R-RETAIN). Does NOT decide equality of results of twin programs.",
@@ -101,8 +101,8 @@ prop("C06",
      "who-may-call, scope pairing with def-use of the layer local and liveness", "")
 
 prop("C07",
-     [evalorder.run, folddrop.run],
-     "Decides for the 11 Exec bodies that order operands: order by must-precede on the CFG, at most once per path, short-circuit by "
+     [evalorder.run, folddrop.run, round3.run_childkeep],
+     "Also R-CHILDKEEP: arms / candidates / elements are never filtered out of the instruction tree. Decides for the 11 Exec bodies that order operands: order by must-precede on the CFG, at most once per path, short-circuit by "
      "control dependence, branch exclusivity by mutual unreachability, sequences by absence of reordering adaptors. Order inside "
      "slice::Iter / zip / collect is trusted.",
      "dominance / reachability on MIR CFG keyed by receiver field of each exec call", "")
@@ -126,8 +126,8 @@ prop("C09",
      "forbidden-callee scan, panic inventory, cast guards", "")
 
 prop("C11",
-     [iterops.run_src, iterops.run_loop, iterops.run_pick, partial(panic.run, scope=ITER_SCOPE, name="R-PANIC")],
-     "Decides, on the code that implements the iterator operators (13 SimpleSL fragments embedded in the Rust sources, parsed "
+     [iterops.run_src, iterops.run_loop, iterops.run_pick, forshape.run, partial(panic.run, scope=ITER_SCOPE, name="R-PANIC"), round3.run_iterfold],
+     "Also R-ITERFOLD: no iterator is created, pulled or reduced at fold time. Decides, on the code that implements the iterator operators (13 SimpleSL fragments embedded in the Rust sources, parsed "
      "with the repository's grammar and analysed path by path; 3 Rust pull loops on the MIR CFG): every iteration pulls its "
      "source at most once and never after the end marker; f / p run only on delivered elements, once each, never on the end "
      "marker's payload; no element is dropped unexamined; map / filter / `? T` / `~` do nothing until their result is pulled; "
@@ -136,8 +136,8 @@ prop("C11",
      "(accumulator, element) order; `$ init f` threads the accumulator left to right; `$]` appends each element once; `\\` "
      "sends an element left exactly when p yields true and returns (with, without); `~` advances its cursor once per element "
      "from index 0 with the bound tested first; type-guarded dispatchers pick the fragment declared for the tested type. Does "
-     "NOT decide that the computed values equal the sequence definition for all inputs, nor the `for` lowering (tree of "
-     "aggregates; its loop typing is R-LOOPTYPE under C02 / C12).",
+     "NOT decide that the computed values equal the sequence definition for all inputs. `for` is decided on the tree of aggregates "
+     "its creator returns (R-FORSHAPE): Block[$iter := e, loop Block[($con, x) := $iter(), if $con body else break]].",
      "symbolic path enumeration over the AST of embedded SimpleSL fragments; CFG path rules on MIR; dispatch recovery",
      "the fragments are read from the string constants passed to Code::parse; a fragment built at run time from non-constant "
      "text other than a format! template is reported as undecidable")
@@ -146,8 +146,8 @@ prop("C12",
      [stop.run, evalorder.run,
       partial(guard.run, only_variants=("BreakOutsideLoop", "ContinueOutsideLoop", "ReturnOutsideFunction", "WrongReturn",
                                         "MatchNotCovered", "WrongCondition", "MissingReturn")),
-      partial(tables.run_dispatch, only=("match_arm", "stm", "line", "body")), pairflowrule.run, guard.run_mustcall, misc.run_looptype],
-     "Decides: a single catch site per signal (Loop::exec for Break/Continue, Function::exec for Return) with the documented "
+      partial(tables.run_dispatch, only=("match_arm", "stm", "line", "body")), pairflowrule.run, guard.run_mustcall, misc.run_looptype, round3.run_meetuse, round3.run_childkeep, round3.run_valuearm, forshape.run],
+     "Also: arms are never dropped from a match (R-CHILDKEEP), not pruned by the non-exact Type::conjoin (R-MEETUSE); a value arm is decided by == alone (R-VALUEARM). Decides: a single catch site per signal (Loop::exec for Break/Continue, Function::exec for Return) with the documented "
      "routing, sugared loops emit Break inside a Loop, in_loop set/restored/reset (R-STOP); placement and exhaustiveness guards "
      "exist and dominate success (R-GUARD); arm loop returns at the first cover, branches are exclusive (R-EVALORDER); all three "
      "match-arm forms and all statements have a handler (R-TABLES-D). Does NOT decide which arm a given value selects.",
@@ -155,16 +155,16 @@ prop("C12",
 
 prop("C13",
      [parsepure.run, misc.run_celltype, partial(witness.run, only=("W3MutNotClone",)), lock.run, guard.run_mustcall,
-      partial(guard.run, only_variants=("WrongInitialization", "CannotDo2")), fold.run, evalorder.run],
-     "Decides: a cell is built only by executing `mut` (or as a type default), never while parsing/folding (R-PARSEPURE); Mut is "
+      partial(guard.run, only_variants=("WrongInitialization", "CannotDo2")), fold.run, evalorder.run, round3.run_assigntyping, round3.run_cellmember],
+     "Also R-CELLMEMBER (a union of cell types is admitted member by member) and R-ASSIGNTYPING: the result type that must fit the cell is computed by the operator's own typing function. Decides: a cell is built only by executing `mut` (or as a type default), never while parsing/folding (R-PARSEPURE); Mut is "
      "not Clone, Variable::Mut holds Arc<Mut> (witness); assign::can_be_used asks mut_element_type and Type::matches, "
      "WrongInitialization guards creation (R-MUSTCALL, R-GUARD); update = read, kernel, store under one write guard, store after "
      "success in try_exec (R-LOCK); value read after the right operand (R-EVALORDER). Does NOT decide the values stored.",
      "who-constructs, compile_fail witness, lock live-region analysis", "")
 
 prop("C14",
-     [tables.run_precedence],
-     "Decides the property for all expressions, given pest's Pratt parser: 52 operator rows are compared across the docs table, "
+     [tables.run_precedence, round3.run_prattonly],
+     "Also R-PRATTONLY: prefix / postfix / infix operations are built only inside the closures given to PRATT_PARSER. Decides the property for all expressions, given pest's Pratt parser: 52 operator rows are compared across the docs table, "
      "the PRATT_PARSER levels (recovered from MIR), the grammar's operator choices, the Rule->BinOperator map with Display tokens "
      "and the dispatch arms; ~900 ordered literal pairs are checked for PEG shadowing. Nothing is executed.",
      "static table agreement: docs / Pratt table (MIR) / pest grammar / operator enum / dispatch arms + PEG literal shadowing",
@@ -197,8 +197,8 @@ prop("C18",
      "MIR extraction of generated Function::new parameter lists vs generated closures", "")
 
 prop("C19",
-     [eqfield.run],
-     "Decides: Array equality reads `elements` only; Variable equality compares Function / Mut by Arc::ptr_eq and the rest through "
+     [eqfield.run, round3.run_valuearm],
+     "Also R-VALUEARM: value arms of match consult nothing but Variable::eq. Decides: Array equality reads `elements` only; Variable equality compares Function / Mut by Arc::ptr_eq and the rest through "
      "the payload's PartialEq; `ne` is not overridden; ==, != and match value arms call exactly that PartialEq. Symmetry / "
      "reflexivity as laws are not decided.",
      "field-projection and callee inspection of the PartialEq impls", "")
